@@ -12,7 +12,7 @@ SPEC = {
     ],
     'rule': 'C04_transmit / C04_final: simulated DON histories of 36 rounds with 4 real commit.Plugin instances over one shared world '
             '(two source chains growing 0-3 messages per round, finality lagging behind the unconfirmed on-ramp latest, per-oracle reader lag 0-2, '
-            'per-round NextSeqNum / MsgsBetweenSeqNums failures, lost observations, random leader, optional Byzantine oracle 3 that alters roots / '
+            'per-round NextSeqNum / MsgsBetweenSeqNums failures, lost observations, random leader, destination f = 2 in one history of eight (class fdest2: f_dest != f_k, F26), optional Byzantine oracle 3 that alters roots / '
             'off-ramp numbers / on-ramp numbers / intervals, tree size 2 / 4 / 256, attested reports lost, delayed 0-5 rounds, sent by two '
             'transmitters, mined one step late); one case per ShouldTransmitAcceptedReport evaluation (roots with ground-truth root bit, cursor, '
             'reader failure) and one per history (all landed reports, final off-ramp content, outcome divergences between the 3 honest oracles). '
@@ -22,15 +22,26 @@ SPEC = {
                 'libocr: every honest oracle gets the same validated observation list; attested reports are only handed to ShouldAccept/ShouldTransmit',
                 'honest readers return only true finalized messages of the queried chain (reader_honest); message hasher is a function of the message'],
     'assumptions': ['at most f_k oracles outside the honest set per chain (f_k = agreed fChain value)',
-                    'liveness is exercised by the histories (reports do get produced and land) but proved only at round level in C03 (recovery bound) — see DESIGN'],
+                    'liveness (C04_liveness): same-view honest quorum in every non-retry selecting / building round, messages pending, selected intervals readable; RMN-retry rounds are not counted'],
     'modelled': 'ValidateMerkleRootsState, the off-ramp, the composition consensus (C01) + root observation (C02) + report building (C03); '
                 'libocr itself (leader election, attestation, transmission protocol) is not modelled',
-    'level_text': 'Proof: 8 Coq theorems — transmit-time re-check forces start = then-current cursor for every report and destination state; no stale sends; '
+    'level_text': 'Proof: 15 Coq theorems — transmit-time re-check forces start = then-current cursor for every report and destination state; no stale sends; '
                   'the off-ramp keeps every chain contiguous under ANY sequence of landing reports (induction over the report list); honest observations carry the '
                   'true root (composition with C02); with <= f_k Byzantine per chain every agreed root is the true root (composition with C01); report roots are '
-                  'agreed roots (C03 model). Correspondence: 4 real plugin instances run whole histories (observation -> validation -> outcome -> reports -> accept -> '
-                  'transmit -> land) and every transmit verdict and final off-ramp state is judged against the model and the executable property.',
-    'level_note': 'PARTIAL for liveness: "a report covering pending messages is produced within a bounded number of rounds" is proved only as the C03 recovery bound '
-                  '(max-checks+2 rounds back to interval selection) plus the two-round select/build path; the same-view hypothesis it needs is named in DESIGN. '
+                  'agreed roots (C03 model). Liveness (full, Proofs/CommitLiveP.v): C04_honest_quorum_consensus (a same-view quorum — 2f+1 distinct reporters of v, at most f '
+                  'reporting anything else, f = f of the chain the data is read from: f_k for merkle root / on-ramp latest, f_dest for off-ramp next; the f values agreed at 2F+1 — '
+                  'makes the C01 consensus succeed with v as the agreed value); C04_liveness (from EVERY previous outcome, over every history whose selecting / building rounds '
+                  'contain such a quorum with messages pending and the selected interval readable: within (max+2)+2 non-retry rounds a ReportGenerated outcome contains a root of '
+                  'chain k over [off, min(on, off+n-1)] — C03_recovery composed with the select / build rounds, RMN bundle covered, cursor allowed to move; C04_liveness_fixed_cursor '
+                  'for the unchanged-cursor reading); C04_liveness_true_root (that root is the true merkle root, composition with C04_agreed_root_true); C04_liveness_nonvacuous '
+                  '(4 oracles, one Byzantine: hypotheses met, bound (max+2)+2 reached at max = 0); C04_liveness_unfixed_refuted (F26, repaired by fixes/F26.patch: with the off-ramp '
+                  'numbers agreed at the source chain f — all 7 oracles honest, identical views, 4 destination readers, f_dest = 1, f_k = 2 — no interval of chain k was ever selected; '
+                  'the repaired processor selects it). Correspondence: 4 real plugin instances run whole histories (observation -> validation -> outcome -> reports -> accept -> '
+                  'transmit -> land, one history in eight with f_dest = 2 != f_k = 1) and every transmit verdict and final off-ramp state is judged against the model and the '
+                  'executable property; the round function the liveness theorems are stated over is the one judged by sink C04_round.',
+    'level_note': 'Liveness hypotheses (all in the statement, each granted by "2f+1 honest readers of the chain concerned share the view"): every non-retry selecting / building round contains a '
+                  'same-view honest quorum (a round whose leader withholds or sets the retry flag outside the building state has none), chain k has pending messages, selected intervals are readable '
+                  'by the quorum, waiting rounds need nothing. Not proved: a bound on RMN-retry rounds (they reproduce the previous outcome; an RMN that never answers stalls the building state), and '
+                  'anything after ReportGenerated (attestation, transmission, landing are libocr / chain). The bound is reached only at max = 0 (max+3 otherwise). '
                   'Trusted: Coq kernel, model, off-ramp contract semantics, libocr contract. No axioms.',
 }
